@@ -10,6 +10,7 @@ CONSTANTS
   MaxEvents = 1
   Dev <- Known
   Pairs2 = FALSE
+  NoDef <- NoDef0
 INVARIANT TypeOK
 INVARIANT PendingExact
 INVARIANT AfterAck
